@@ -1163,7 +1163,7 @@ pub fn array_fill(
 
 /// Index arguments converted up front: `to_number` on an object argument borrows
 /// that object, and it may be the array the method is about to borrow mutably
-fn with_numeric_args(args: &[JsValue], positions: std::ops::Range<usize>) -> Vec<JsValue> {
+fn with_numeric_args(args: &[JsValue], positions: core::ops::Range<usize>) -> Vec<JsValue> {
     args.iter()
         .enumerate()
         .map(|(i, v)| {
